@@ -6,7 +6,9 @@ use crate::compiler::expression::function_call::InvalidArgumentErrorContext;
 use crate::compiler::{
     CompileConfig, Context, Expression, Span, TypeDef,
     compiler::CompilerError,
-    expression::{Expr, Resolved, assignment::ErrorVariant::InvalidParentPathSegment},
+    expression::{
+        Expr, ExpressionError, Resolved, assignment::ErrorVariant::InvalidParentPathSegment,
+    },
     parser::{
         Node,
         ast::{self, Ident},
@@ -539,6 +541,10 @@ where
                     err.insert(Value::Null, ctx);
                     value
                 }
+                // `return` and `abort` are control flow, not errors to capture
+                Err(
+                    error @ (ExpressionError::Return { .. } | ExpressionError::Abort { .. }),
+                ) => return Err(error),
                 Err(error) => {
                     ok.insert(default.clone(), ctx);
                     let value = Value::from(error.to_string());
